@@ -1171,7 +1171,7 @@ REG.note(PROP, 'trusted', 'float arithmetic in PRF (len/2.0, math.ceil, math.flo
 REG.note(PROP, 'trusted', 'list comprehension / generator over sequences of symbolic length (pyvc/iters.py): result defined element-wise; '
          'element-wise xor of two equal-length sequences identified with s_xor')
 REG.note(PROP, 'trusted', 'comparison of a byte string with a bytes literal is decided by length and elements (pyvc/seqlit.py)')
-REG.note(PROP, 'not_built', 'RecordLayer.calcPendingStates key-block slicing, calcTLS1_3PendingState / _calcTLS1_3KeyUpdate labels '
-         '(DESIGN C09 bullet 6) are not in contracts.kdf')
+REG.note(PROP, 'assumptions', 'RecordLayer.calcPendingStates key-block slicing is in contracts.recordlayer; calcTLS1_3PendingState / '
+         '_calcTLS1_3KeyUpdate labels and secrets are in contracts.m2_tls13_states (not in contracts.kdf)')
 REG.note(PROP, 'not_built', 'P_hash / PRF / HKDF are proved against uninterpreted HMAC and Hash: MD5/SHA-* themselves (hashlib, OpenSSL) '
          'and the stdlib hmac module are not verified; specs.kdf compares the real functions with hashlib-based references')
